@@ -144,6 +144,7 @@ type Action struct {
 	NoTopic    bool    `json:"no_topic,omitempty"`   // send an empty topic (alias-only publish)
 	PID        uint16  `json:"pid,omitempty"`        // 0 = next fresh identifier of this connection
 	Retransmit int     `json:"retransmit,omitempty"` // >0: resend the own QoS>0 publish with this index (DUP, same tag)
+	PIDPool    int     `json:"pid_pool,omitempty"`   // >0: use the lowest identifier in 1..PIDPool that no unfinished own publish uses (skip if none)
 
 	// ack: Index selects among the connection's outstanding inbound messages (oldest first, modulo)
 	Index   int    `json:"index,omitempty"`
@@ -604,6 +605,23 @@ func (r *Run) doConnect(s *Step, a *Action) {
 		ver = 4
 	}
 	p := &Peer{ID: len(r.Peers), Client: a.Client, CID: cid, Link: link, Version: ver, AutoAck: a.AutoAck, OpenedAt: s.I, ClosedAt: -1}
+	if !a.Clean && a.RawConnect == nil {
+		// the client side of a resumed session remembers its unfinished exchanges (MQTT 4.1: the client's session state)
+		for i := len(r.Peers) - 1; i >= 0; i-- {
+			if q := r.Peers[i]; q.CID == cid {
+				for _, o := range q.Out {
+					cp := *o
+					p.Out = append(p.Out, &cp)
+				}
+				for _, m := range q.In {
+					cp := *m
+					p.In = append(p.In, &cp)
+				}
+				p.nextPID = q.nextPID
+				break
+			}
+		}
+	}
 	r.Peers = append(r.Peers, p)
 	s.Peer = p.ID
 	var pk *refmqtt.Packet
@@ -658,7 +676,7 @@ func (r *Run) doPublish(s *Step, a *Action) {
 	if a.Retransmit > 0 {
 		var cands []*OutMsg
 		for _, o := range p.Out {
-			if o.Stage == 0 {
+			if o.Stage < 2 { // PUBREL not sent yet
 				cands = append(cands, o)
 			}
 		}
@@ -673,6 +691,24 @@ func (r *Run) doPublish(s *Step, a *Action) {
 		r.send(p, &cp, refmqtt.Style{})
 		return
 	}
+	poolPID := uint16(0)
+	if a.PIDPool > 0 && a.QoS > 0 {
+		for cand := uint16(1); int(cand) <= a.PIDPool && poolPID == 0; cand++ {
+			free := true
+			for _, o := range p.Out {
+				if o.PID == cand {
+					free = false
+				}
+			}
+			if free {
+				poolPID = cand
+			}
+		}
+		if poolPID == 0 {
+			s.Skipped = true
+			return
+		}
+	}
 	r.tagSeq++
 	tag := r.tagSeq
 	pk := &refmqtt.Packet{Type: refmqtt.PUBLISH, QoS: a.QoS, Retain: a.Retain, Dup: a.Dup, Topic: a.Topic, Payload: TagPayload(tag)}
@@ -681,6 +717,9 @@ func (r *Run) doPublish(s *Step, a *Action) {
 	}
 	if a.QoS > 0 {
 		pk.PacketID = a.PID
+		if poolPID != 0 {
+			pk.PacketID = poolPID
+		}
 		if pk.PacketID == 0 {
 			pk.PacketID = p.pid()
 		}
